@@ -12,6 +12,8 @@ import LocustModel.Wire.ResponseSpec
     e2e mbin|mclient <k> <xor> <mantissa|_> <fp names> cols … ;; cols …     /multi_query_cols, capnp
     e2e <endpoint> err <Variant>                              a failing query: `<status|dropped> next:<status>`
     e2e <endpoint> emb:<panic|hang>                           the embedded call itself did not return a value
+    e2e twin                                                  same batches through /insert_bin and through
+                                                              ingest_efficient on a second database: `same`
     e2e insert | next | clientflush | malformed <ep> | start  bookkeeping requests
 
   col   = I:<ints> | F:<16-hex,…> | S:<x…,…> | N:<n> | M:<cells>      cells: _ | i<int> | f<16 hex> | x<hex>
@@ -118,31 +120,6 @@ def consistentB (cols : List (String × BCol)) : Bool :=
 
 def dupId (cols : List (String × BCol)) : String := if consistentB cols then "" else "http-cols-duplicate-names"
 
-/-- Adjacent differences of an integer column. -/
-def adjDiffs : List Int → List Int
-  | a :: b :: rest => (b - a) :: adjDiffs (b :: rest)
-  | _ => []
-
-/-- Classifier of the open finding `api-delta-i64-overflow` (C16): an adjacent difference does not fit i64. -/
-def diffOverflowsB (xs : List Int) : Bool := (adjDiffs xs).any fun d => !decide (inI64 d)
-
-/-- Classifier of the open finding `api-range-decode-mul-overflow` (C16): constant step `s` (Range layout) and
-    `(len-1)·s` outside i64. -/
-def rangeMulOverflowsB (xs : List Int) : Bool :=
-  match adjDiffs xs with
-  | [] => false
-  | s :: ds => ds.all (· == s) && decide (inI64 s) && !decide (inI64 (((xs.length : Int) - 1) * s))
-
-def intsOf : WCol → List Int
-  | .int xs => xs
-  | _ => []
-
-/-- Findings of the integer layouts (C16), while they are open: evaluated on the integer columns of the response. -/
-def intsId (ws : List WCol) : String :=
-  if ws.any (fun w => diffOverflowsB (intsOf w)) then "api-delta-i64-overflow"
-  else if ws.any (fun w => rangeMulOverflowsB (intsOf w)) then "api-range-decode-mul-overflow"
-  else ""
-
 def withKnown (model spec known : String) : String :=
   model ++ "\t" ++ spec ++ (if known = "" || !(spec.startsWith "BAD") then "" else "\t" ++ known)
 
@@ -191,8 +168,7 @@ def stepEnc (xor mant colTok impl : String) : String :=
       else match impl.splitOn " => " with
         | [_, client] => judgeBinCol o col client
         | _ => "BAD encode_column did not return: " ++ impl.take 40
-    let known := match encodeColumn col o with | .ok w => intsId [w] | .error _ => ""
-    withKnown model spec known
+    withKnown model spec ""
   | _, _, _ => "bad-op\tbad-op"
 
 /-! ### JSON -/
@@ -434,12 +410,8 @@ def stepMBin (xor mant fp : String) (blocks : List (List String)) (impl : String
         if views.length ≠ outs.length then "BAD the client did not obtain the responses: " ++ impl.take 40
         else firstBad ((outs.zip views).map fun ((_, c), v) => judgeBin eo c v)
       | _ => "BAD a successful request was not answered with 200: " ++ impl.take 40
-    let ws : List WCol := match encodeAll eo qouts with
-      | .ok rs => rs.flatMap fun r => r.map (·.2)
-      | .error _ => []
-    let ints := intsId ws
     let dup := ((outs.map fun (_, c) => dupId c).find? (· ≠ "")).getD ""
-    withKnown model spec (if ints ≠ "" then ints else dup)
+    withKnown model spec dup
   | _, _, _, _ => "bad-op\tbad-op"
 
 def stepE2E (toks : List String) (impl : String) : String :=
@@ -450,6 +422,7 @@ def stepE2E (toks : List String) (impl : String) : String :=
   | "mjson" :: _k :: rest => stepMJson (splitBlocks rest) impl
   | "mbin" :: _k :: x :: m :: fp :: rest => stepMBin x m fp (splitBlocks rest) impl
   | "mclient" :: _k :: x :: m :: fp :: rest => stepMBin x m fp (splitBlocks rest) impl
+  | ["twin"] => "same\t" ++ (if impl = "same" then "OK" else "BAD rows inserted through /insert_bin and through the embedded API give different query results: " ++ impl)
   | ["insert"] => "200\t" ++ (if impl = "200" then "OK" else "BAD insert_bin answered " ++ impl)
   | ["next"] => "next:200\t" ++ (if impl = "next:200" then "OK" else "BAD the request after a panic was not answered: " ++ impl)
   | ["clientflush"] => "flushed\t" ++ (if impl = "flushed" then "OK" else "BAD the logging client could not deliver its buffer")
